@@ -441,7 +441,12 @@ func vC08RunRtmpRead(c vSx, starts *[]int) (obs vSx, fails []vC08Fail, nontrivia
 			p := NewProtocol(&vC08RW{rd, &vC08Writer{failAt: -1}})
 			for i := 0; i <= len(exp); i++ {
 				var m *Message
-				if m, err = p.ReadMessage(); err != nil {
+				if len(exp)%2 == 1 {
+					m, err = p.ExpectMessage() // the public wrapper adds one more layer
+				} else {
+					m, err = p.ReadMessage()
+				}
+				if err != nil {
 					if m != nil {
 						fail(k, "c08-truncated-item", fmt.Sprintf("ReadMessage returned a message (%d bytes) together with error %v", len(m.Payload), err))
 					}
@@ -540,14 +545,23 @@ func vC08WriteSession(hs bool, ms []vC08Msg, failAt, m int, term error) (s vC08W
 	}
 	p := NewProtocol(&vC08RW{&vC08Reader{term: io.EOF}, w})
 	for _, x := range ms {
-		mm := NewMessage()
-		mm.betterCid = chunkID(x.cid)
-		mm.MessageType = MessageType(x.typ)
-		mm.Timestamp = x.ts
-		mm.streamID = x.sid
-		mm.Payload = x.body
-		if s.err = p.WriteMessage(mm); s.err != nil {
-			return
+		if x.typ == 1 && x.cid == 2 && x.ts == 0 && len(x.body) == 4 {
+			// WritePacket: marshal, register, WriteMessage, one more wrapping layer
+			pkt := NewSetChunkSize()
+			pkt.ChunkSize = uint32(x.body[0])<<24 | uint32(x.body[1])<<16 | uint32(x.body[2])<<8 | uint32(x.body[3])
+			if s.err = p.WritePacket(pkt, int(x.sid)); s.err != nil {
+				return
+			}
+		} else {
+			mm := NewMessage()
+			mm.betterCid = chunkID(x.cid)
+			mm.MessageType = MessageType(x.typ)
+			mm.Timestamp = x.ts
+			mm.streamID = x.sid
+			mm.Payload = x.body
+			if s.err = p.WriteMessage(mm); s.err != nil {
+				return
+			}
 		}
 		s.n++
 		s.opEnd = append(s.opEnd, len(w.sizes))
@@ -739,6 +753,9 @@ func vC08GenMsgs(r *vRng, small bool, forWrite bool) (msgs []vSx, wireLen int) {
 			format, ts = 1, int64(r.intn(1000))
 		}
 		g.prevLen[cid], g.prevTyp[cid] = n, typ
+		if forWrite && setChunk > 0 && r.chance(2, 3) {
+			ts = 0
+		}
 		msgs = append(msgs, vL(vI(format), vI(cid), vI(typ), vZ(ts), vI(r.pickInt(0, 1, 1, 0x01020304)), body))
 		if setChunk > 0 {
 			chunk = setChunk
